@@ -50,14 +50,17 @@ def cases(seed, tier):
     out = []
     for k in range(n):
         rng = trees.rng_for(seed, PID, k)
-        kind = ["network", "cell", "branch", "network", "cell", "perm_cell", "perm_net", "cell"][k % 8]
+        kind = ["network", "perm_cell", "branch", "network", "cell", "perm_cell", "perm_net", "perm_cell"][k % 8]
         if kind in ("network", "perm_net"):
             cells = [gen_cell(rng, 3) for _ in range(int(rng.integers(1, 4)))]
         elif kind in ("cell", "perm_cell"):
             cells = [gen_cell(rng, 5)]
-            if kind == "perm_cell" and len(cells[0]["parents"]) < 3:
-                cells = [gen_cell(rng, 5) for _ in range(6)]
-                cells = [max(cells, key=lambda c: len(c["parents"]))]
+            if kind == "perm_cell":
+                # hostile labellings: parents of later branches listed before parents of earlier ones (e.g. [-1,0,0,2,1])
+                def inversions(c):
+                    seen = list(dict.fromkeys(p for p in c["parents"][1:]))
+                    return sum(1 for i in range(len(seen)) for j in range(i + 1, len(seen)) if seen[i] > seen[j]) + 0.01 * len(c["parents"])
+                cells = [max([gen_cell(rng, 7) for _ in range(8)], key=inversions)]
         else:
             cells = [{"parents": [-1], "branches": [[gen_comp(rng) for _ in range(int(rng.integers(1, 4)))]]}]
         out.append({"kind": kind, "cells": cells, "T": int(rng.integers(6, 11)), "amp": float(rng.uniform(0.02, 0.2)),
